@@ -68,8 +68,12 @@ def invariant_failure(L):
                 return ('parent-link', 'element %d is in no block list but its parentNode is %s' % (i, L.eid(e.parentNode)))
             owner = L.parser if (L.parser is not None and e is L.parser.getRoot()) else None
             stack = [e]
+            steps = 0
             while stack:
                 x = stack.pop()
+                steps += 1
+                if steps > 10 * len(L.els) + 10:
+                    return ('appears-twice', 'the blocks below element %d do not form a tree' % i)
                 if x.ownerDocument is not owner:
                     return ('owner', 'element %s below root %d: ownerDocument is %s, expected %s'
                             % (L.eid(x), i, L.doc_id(x.ownerDocument), L.doc_id(owner)))
@@ -174,17 +178,19 @@ class Check(PropCheck):
                 for kind in ('det', 'doc'):
                     if kind != 'det' and D.adjacent_text(seed):
                         continue
-                    for d in D.bfs_cases(seed, kind, 3, 6000, rng):
+                    for d in D.bfs_cases(seed, kind, 3, 2500, rng):
                         if len(d['ops']) > 1:
                             yield Case(d, 'bfs')
-            n, size, ops = 6000, 60, 40
+            n, size, ops = 3000, 60, 40
         else:
             for d in D.exhaustive_cases(12, rng):
                 yield Case(d, 'exhaustive')
-            n, size, ops = 260, 60, 40
+            n, size, ops = 240, 60, 40
         for i in range(n):
             if i % 3 == 0:
                 yield Case(D.random_case(rng, 6, 12), 'random')
+            elif i % 3 == 1:
+                yield Case(D.random_case(rng, 20, 20), 'random')
             else:
                 yield Case(D.random_case(rng, size, ops), 'random')
 
@@ -221,6 +227,9 @@ class Check(PropCheck):
         L = D.Live(d)
         out = [['init', dump_world(L, 0)]]
         for op in d['ops']:
+            if not L.pre_ok(op):
+                out.append(['precondition-violated'])
+                break
             v = L.apply(op)
             out.append([D.val_sx(v), dump_world(L, op[1])])
         return sx(*out)
@@ -232,6 +241,8 @@ class Check(PropCheck):
         if f:
             return (f[0], 'initial tree: ' + f[1])
         for n, op in enumerate(d['ops']):
+            if not L.pre_ok(op):
+                return None         # the history left the domain of the property (an argument is not detached)
             L.apply(op)
             f = invariant_failure(L) or navigation_failure(L)
             if f:
